@@ -1007,7 +1007,8 @@ def _backend(prog: Program, run: Run) -> None:
     d = prog.func("DecodeState.extract_atomic_value")
     for f in (e, d):
         calls = [x for x in walk_no_nested(f.node) if isinstance(x, ast.Call) and call_name(x) in (
-            "pack", "unpack_from")]
+            "pack", "unpack_from") and isinstance(x.func, ast.Attribute) and ast.unparse(
+                x.func.value).split(".")[0] == "bitstruct"]
         s = ast.unparse(calls[0].args[0]) if calls else ""
         src = ast.unparse(f.node)
         if calls and "bit_length" in s and ("format_char" in s or "bitstruct_format_letter" in s) \
